@@ -49,8 +49,8 @@ from common import run_driver, WORK  # noqa: E402
 from props.moncommon import (Mon, DEVS, WIDTHS, install_timer, core_of, tohex, unhex)  # noqa: E402
 
 ID = 'C20'
-LEAN_MODULES = ['Py65.Props.C20', 'Py65.Proofs.MonPreGenEq', 'Py65.Props.C20g']
-NAMESPACES = ['Py65.Props.C20', 'Py65.Proofs.MonPreGenEq', 'Py65.Props.C20g']
+LEAN_MODULES = ['Py65.Props.C20', 'Py65.Proofs.MonPreGenEq', 'Py65.Proofs.MonCmdGenEq', 'Py65.Props.C20g']
+NAMESPACES = ['Py65.Props.C20', 'Py65.Proofs.MonPreGenEq', 'Py65.Proofs.MonCmdGenEq', 'Py65.Props.C20g']
 LEVEL = 'proof'
 USES_PROLOGUE = True
 USES_GEN = False
@@ -62,6 +62,23 @@ EXPECTED_THEOREMS = [
     'Py65.Proofs.MonPreGenEq.preprocess_eq',
     'Py65.Props.C20g.preprocess_is_generated', 'Py65.Props.C20g.shortcuts_is_generated',
     'Py65.Props.C20g.shortcut_equiv', 'Py65.Props.C20g.dispatch_total',
+    # tie by regeneration, unit `cmds`: the dispatcher (Monitor.onecmd, cmd.Cmd.onecmd/parseline/default/emptyline)
+    # and the state-owning commands = hand model, for all arguments
+    'Py65.Proofs.MonCmdGenEq.doNames_eq', 'Py65.Proofs.MonCmdGenEq.identchars_eq',
+    'Py65.Proofs.MonCmdGenEq.while1_eq', 'Py65.Proofs.MonCmdGenEq.parseline_eq',
+    'Py65.Proofs.MonCmdGenEq.do_quit_eq', 'Py65.Proofs.MonCmdGenEq.do_radix_eq', 'Py65.Proofs.MonCmdGenEq.do_width_eq',
+    'Py65.Proofs.MonCmdGenEq.do_add_label_eq', 'Py65.Proofs.MonCmdGenEq.addLabel_ok_iff',
+    'Py65.Proofs.MonCmdGenEq.do_delete_label_eq', 'Py65.Proofs.MonCmdGenEq.do_show_labels_eq',
+    'Py65.Proofs.MonCmdGenEq.registers_for1_eq', 'Py65.Proofs.MonCmdGenEq.do_registers_eq',
+    'Py65.Proofs.MonCmdGenEq.getattr_eq', 'Py65.Proofs.MonCmdGenEq.Cmd_onecmd_eq',
+    'Py65.Proofs.MonCmdGenEq.onecmd_eq', 'Py65.Proofs.MonCmdGenEq.onecmd_eq_empty',
+    'Py65.Proofs.MonCmdGenEq.onecmd_never_raises', 'Py65.Proofs.MonCmdGenEq.call_do_sim',
+    'Py65.Proofs.MonCmdGenEq.onecmd_diverges', 'Py65.Proofs.MonCmdGenEq.onecmd_sim',
+    'Py65.Proofs.MonCmdGenEq.onecmd_truthy', 'Py65.Proofs.MonCmdGenEq.onecmd_quit',
+    # ... and the property theorems restated for the generated dispatcher / commands
+    'Py65.Props.C20g.onecmd_never_raises', 'Py65.Props.C20g.onecmd_returns', 'Py65.Props.C20g.onecmd_needs_noloop',
+    'Py65.Props.C20g.quit_forms', 'Py65.Props.C20g.quit_forms_exit', 'Py65.Props.C20g.rejected_unchanged',
+    'Py65.Props.C20g.refusals_shown', 'Py65.Props.C20g.registers_exact', 'Py65.Props.C20g.commands_is_generated',
 ]
 RULE = ('a line counts as non-trivial when the real monitor dispatched it to a command or refused it '
         '(i.e. everything except blank lines with nothing to repeat); distinct = distinct '
@@ -76,6 +93,29 @@ TRUSTED = [
     '(MonCmd.preprocessL, MonCmd.shortcuts) for ALL lines, and Py65.Props.C20g restates shortcut_equiv and '
     'dispatch_total for the generated definitions.  A source change that breaks the equality, or that the '
     'translator refuses (e.g. any other regex literal), is a broken tie',
+    'REGENERATED on every run (unit `cmds`, harness/py2lean_moncmd.py -> lean/Py65/Gen/MonCmdGen.lean): '
+    'Monitor.onecmd (preprocess, cmd.Cmd.onecmd inside try/except, status line unless the line starts with quit, '
+    'return result), Monitor._output_mpu_status, do_registers, do_radix, do_width, do_add_label, do_delete_label, '
+    'do_show_labels, do_quit, the help_* they call, the table of do_* method names collected from class Monitor '
+    '(and cmd.Cmd), and -- from the INSTALLED standard library source, pinned by sha256 '
+    'fb82a8c4e44e5b559c88d516d79051534cec69a463df97defe05ac8a261f0a0d (CPython 3.12.1; another text is a refusal) -- '
+    'cmd.Cmd.onecmd / parseline / default / emptyline and cmd.Cmd.identchars.  Py65.Proofs.MonCmdGenEq proves them '
+    'equal to the hand model Py65.Model.MonCmd for ALL arguments (parseline_eq, Cmd_onecmd_eq, onecmd_eq, '
+    'do_*_eq, onecmd_sim), Py65.Props.C20g restates quit_forms, quit_forms_exit, rejected_unchanged, registers_exact '
+    'and the totality of the dispatcher for the generated functions.  The commands that are NOT translated '
+    '(help, version, reset, mpu, assemble, disassemble, step, return, goto, cycles, tilde, cd, pwd, load, save, fill, '
+    'mem, the breakpoint commands) are the parameter `oth` of the generated dispatcher; the theorems assume of them '
+    'exactly `OthModels oth ext` (they end, do to the session core what MonCmd.runCommand says, leave lastcmd '
+    'alone, return no true value) resp. `OthFalsy oth` -- tied by the sampled correspondence of this check and by '
+    'C16 / C17 / C19',
+    'library behaviour the generated text of unit `cmds` calls, modelled in lean/Py65/Model/MonCmdRt.lean (and '
+    'MonGenRt / MonCmd / AddrParser): getattr / hasattr(self, \'do_...\') = membership in the collected table; '
+    'setattr(self._mpu, name, v) for the six register attributes; repr of a str (%r); KeyError.args[0] of '
+    'AddressParser.number (keyErrorArg0); dict get/set/del/keys/values, zip, list.sort on (int, str) tuples; '
+    'str.strip() / lower(); self.stdout.write(text + newline) = one output entry; re.findall for exactly the pattern '
+    'string ([^=,\\s]*)=([^=,\\s]*) (MonCmd.findPairs); shlex.split; int(); %-formatting; traceback text (tb) and '
+    'repr(self._mpu) (mpuRepr) are uninterpreted parameters; KeyboardInterrupt (asynchronous) and RecursionError '
+    '(the diverging empty-line recursion: theorem onecmd_diverges) are outside the model',
     'hand model Py65.Model.MonCmd (cmd.Cmd.parseline/onecmd/emptyline, shlex.split, the two '
     'regular expressions as deterministic scanners, the state-owning commands; preprocess also hand-modelled, see '
     'above) -- tied to the real Monitor.onecmd by sampled correspondence (this check)',
@@ -99,15 +139,25 @@ ASSUMPTIONS = [
     'an empty line repeats the previous command (cmd.Cmd); if that command was a quit form the empty line '
     'requests exit as well -- counted as the quit form repeated',
     'interactive assembly reads further lines from stdin: they are part of that command, not command lines',
-    'tie by regeneration covers _add_shortcuts and _preprocess_line; cmd.Cmd.onecmd/parseline and the commands '
-    'remain hand-modelled (correspondence).  The translator resolves self._shortcuts[\'~\'] against the table '
-    'literal of _add_shortcuts and checks that nothing else assigns self._shortcuts',
+    'tie by regeneration covers _add_shortcuts, _preprocess_line, Monitor.onecmd, cmd.Cmd.onecmd/parseline/default/'
+    'emptyline and the commands registers, radix, width, add_label, delete_label, show_labels, quit; the other '
+    'commands remain hand-modelled (correspondence).  The translator resolves self._shortcuts[\'~\'] against the table '
+    'literal of _add_shortcuts and checks that nothing else assigns self._shortcuts; for unit `cmds` it checks that '
+    'class Monitor derives from cmd.Cmd only, overrides none of parseline / default / emptyline / precmd / postcmd / '
+    '__getattr__ / identchars / lastcmd, assigns no do_* attribute outside `def`, and that _output, _reset and __init__ '
+    'still establish the facts the translation uses (byteMask, addrFmt, the AddressParser, _width = 78)',
+    'the generated dispatcher is total only up to fuel: the recursion onecmd -> emptyline -> onecmd of an empty line '
+    'whose lastcmd preprocesses to an empty line does not end in Python either (RecursionError, absorbed); the '
+    'restated theorems exclude exactly that situation (Loops) and onecmd_needs_noloop shows the exclusion is needed',
 ]
 
 def pre_build(ctx):
-    """translator tie: regenerate lean/Py65/Gen/MonPreGen.lean from the current monitor.py"""
-    from props import montie
-    return montie.pre_build(ctx, 'pre')
+    """translator tie: regenerate lean/Py65/Gen/MonPreGen.lean and MonCmdGen.lean from the current monitor.py
+    (and the installed cmd.py)"""
+    from props import montie, moncmdtie
+    a = montie.pre_build(ctx, 'pre')
+    b = moncmdtie.pre_build(ctx)
+    return a and b
 
 
 SHORTCUTS = {'EOF': 'quit', '~': 'tilde', 'a': 'assemble', 'ab': 'add_breakpoint', 'al': 'add_label',
